@@ -42,14 +42,18 @@ void harness(void)
 	char file[64];
 	char *files[] = {"f", NULL};
 	int i, a, b, n = 0;
-	/* four lines "<c1><c2>\n" with letters from {a,b,x}: whether g/a/, s/x/ match is the solver's choice */
+	/* start the editor first (shared by all paths), then load four lines "<c1><c2>\n" with letters from {a,b,x}:
+	 * whether g/a/, s/x/ match is the solver's choice */
+	env_mkfile("f", "aa\n", 3, 5);
+	exh_start(files);
 	for (i = 0; i < 4; i++) {
 		unsigned char c1 = symx_u8("c"), c2 = symx_u8("c");
 		symx_assume((c1 == 'a' || c1 == 'b' || c1 == 'x') && (c2 == 'a' || c2 == 'b' || c2 == 'x'));
 		file[n++] = c1; file[n++] = c2; file[n++] = '\n';
 	}
-	env_mkfile("f", file, n, 5);
-	exh_start(files);
+	file[n] = 0;
+	lbuf_edit(xb, file, 0, lbuf_len(xb));
+	lbuf_saved(xb, 1);
 	a = symx_u8("A");
 	b = symx_u8("B");
 	symx_assume(a < NMENU && b < NMENU);
